@@ -415,16 +415,17 @@ func run() int {
 	if *flagPrefix != "" {
 		return 0
 	}
-	// C11: static single-writer check backing the dispatcher reduction
-	if *flagProp == "C11" && unitRe == nil {
+	// C11 / C01: static single-writer check backing the dispatcher reduction (the sequential
+	// histories of C01 describe the agent only if every store access runs in the dispatcher)
+	if (*flagProp == "C11" || *flagProp == "C01") && unitRe == nil {
 		vs, n := sym.SingleWriterCheck(prog, repoMod+"/cmd/whawty-auth", repoMod+"/store")
 		fmt.Printf("STATIC single-writer check: %d functions examined, %d violations\n", n, len(vs))
 		samples = append(samples, map[string]interface{}{"static": "single-writer check", "functions_examined": n, "violations": vs})
 		for i, v := range vs {
-			rp := filepath.Join(*flagVerif, "replays", fmt.Sprintf("C11-static-single-writer-%d.json", i))
-			sym.WriteJSON(rp, map[string]interface{}{"property": "C11", "unit": "static:SingleWriter", "assert": "model: store-library-only-reached-from-the-dispatcher-goroutine", "detail": v})
+			rp := filepath.Join(*flagVerif, "replays", fmt.Sprintf("%s-static-single-writer-%d.json", *flagProp, i))
+			sym.WriteJSON(rp, map[string]interface{}{"property": *flagProp, "unit": "static:SingleWriter", "assert": "model: store-library-only-reached-from-the-dispatcher-goroutine", "detail": v})
 			nviol++
-			vioLines = append(vioLines, fmt.Sprintf("VIOLATION property=C11 replay=%s", rp))
+			vioLines = append(vioLines, fmt.Sprintf("VIOLATION property=%s replay=%s", *flagProp, rp))
 			fmt.Printf("  violation static: %s\n", v)
 		}
 	}
@@ -490,7 +491,7 @@ func run() int {
 	return exit
 }
 
-var scheduleDependent = map[string]bool{"C05": true, "C10": true, "C11": true, "C12": true, "C19": true}
+var scheduleDependent = map[string]bool{"C04": true, "C05": true, "C10": true, "C11": true, "C12": true, "C19": true}
 
 // traceCheckable: obligations that can be decided on the real strace log of the operation.
 func traceCheckable(id string) bool {
